@@ -401,6 +401,46 @@ func structural(F *Facts, nodeP, pegP, srvP, cmdP map[string]*ast.File) {
 	}
 	sort.Strings(F.PackageVars)
 
+	// row loops that never ask rows.Err(): a function of node/pegnet (or node) that iterates a
+	// result set with `for rows.Next()` and contains no call of `.Err()` ends the loop silently
+	// when a fetch fails (lock timeout, I/O error) and goes on with a truncated result
+	for _, pd := range []struct {
+		dir   string
+		files map[string]*ast.File
+	}{{"node", nodeP}, {"node/pegnet", pegP}} {
+		for fn, f := range pd.files {
+			if strings.Contains(fn, "verif_") || strings.HasSuffix(fn, "_test.go") {
+				continue
+			}
+			for _, d := range f.Decls {
+				fd, ok := d.(*ast.FuncDecl)
+				if !ok || fd.Body == nil {
+					continue
+				}
+				loops, errCalls := 0, 0
+				ast.Inspect(fd.Body, func(n ast.Node) bool {
+					switch x := n.(type) {
+					case *ast.ForStmt:
+						if ce, ok := x.Cond.(*ast.CallExpr); ok {
+							if se, ok := ce.Fun.(*ast.SelectorExpr); ok && se.Sel.Name == "Next" {
+								loops++
+							}
+						}
+					case *ast.CallExpr:
+						if se, ok := x.Fun.(*ast.SelectorExpr); ok && se.Sel.Name == "Err" && len(x.Args) == 0 {
+							errCalls++
+						}
+					}
+					return true
+				})
+				if loops > 0 && errCalls == 0 {
+					F.UncheckedRowLoops = append(F.UncheckedRowLoops, fn+":"+fd.Name.Name)
+				}
+			}
+		}
+	}
+	sort.Strings(F.UncheckedRowLoops)
+
 	// shared in-memory state: who touches it, from which package
 	all := map[string]map[string]*ast.File{"node": nodeP, "srv": srvP, "cmd": cmdP}
 	for pkg, files := range all {
